@@ -12,8 +12,14 @@ CFG = PropCfg(
     "C20", "HopModel.Props.C20",
     [SuiteCfg("C20", stateless=True, signature=_sig,
               nontrivial=lambda ops, outs: True,
-              classify=lambda op, out: op.split(" ", 1)[0] + "->" + (out if len(out) < 6 else "list"))],
-    rule="every line is one case: glob <pattern> <input>, hosts <host> <blocks>, vhost <name> <patterns>, run on "
+              classify=lambda op, out: op.split(" ", 1)[0] + "->" + (out if len(out) < 6 else "list")),
+     # the selection as wired into a real server: NewHopServer's getCert, names of every type (C01's harness)
+     SuiteCfg("C10sni", binary="C01", stateless=True, parts_thorough=1, nontrivial=lambda ops, outs: True)],
+    rule="suite C10sni (C01's harness): a real hopserver.NewHopServer with the virtual hosts srv.example, 10.0.0.* and \\xff* "
+         "and no fallback; real clients over loopback UDP ask for names of every type (raw, unknown type byte, IPv4-typed with "
+         "the address text as label, a label that is not UTF-8, empty): the certificate presented is the one of the first "
+         "host whose pattern matches the LABEL. Several lookups on one ClientConfig (hostseq) answer like first lookups. "
+         "suite C20: every line is one case: glob <pattern> <input>, hosts <host> <blocks>, vhost <name> <patterns>, run on "
          "glob.Glob / ClientConfig.MatchHost / VirtualHosts.Match (under recover) and on the Lean model. "
          "Exhaustive over patterns in {a,b,*}^<=5 x inputs in {a,b}^<=6 (thorough: <=7 x <=9), plus random "
          "pattern/instance pairs up to length 64 over 4 letters and arbitrary bytes, plus random host-block "
